@@ -248,6 +248,28 @@ class StmtMixin:
             if r == "raise":
                 yield ("raise", it), s
                 continue
+            if isinstance(it, tuple) and it and it[0] in ("tuple", "list") and len(it) == 2 and isinstance(it[1], tuple) \
+                    and len(it[1]) <= 16 and not n.orelse:
+                # a display held in a local (a table of registries, of (registry, method) pairs ..): unrolled exactly
+                elems = it[1]
+
+                def go2(i, s0, elems=elems):
+                    if i == len(elems):
+                        yield None, s0
+                        return
+                    for ex, s2 in self.assign(n.target, elems[i], s0, fx, n):
+                        if ex is not None:
+                            yield ex, s2
+                            continue
+                        for ex2, s3 in self.block(n.body, s2, fx):
+                            if ex2 is None or ex2[0] == "continue":
+                                yield from go2(i + 1, s3)
+                            elif ex2[0] == "break":
+                                yield None, s3
+                            else:
+                                yield ex2, s3
+                yield from go2(0, s)
+                continue
 
             def bind(bs, loop_id, it=it):
                 val = self._iter_elem(it, loop_id)
